@@ -41,6 +41,7 @@ def gen_tree(rng, root):
     consts = []
     used_names = set()
     t.depth = 0
+    t.double = False
 
     def body_lines(n):
         out = []
@@ -116,7 +117,14 @@ def gen_tree(rng, root):
             style = rng.randrange(4)
             inc_line = {0: 'include %s', 1: 'include "%s"', 2: "include '%s'", 3: 'include %s  # pull it in (here)'}[style] % written
             lines.append(inc_line)
-            flat += make(target, depth + 1)
+            sub = make(target, depth + 1)
+            flat += sub
+            if rng.random() < 0.15:
+                # the same file included once more (textual splicing: its lines appear again; a later definition of a label or
+                # constant of the same name simply comes later in the flattened text as well)
+                lines.append(inc_line)
+                flat += sub
+                t.double = True
         last = [] if pos == 'last' else body_lines(rng.randint(0 if n_inc else 1, 3))
         lines += last
         flat += last
@@ -156,6 +164,7 @@ def run_tree(asm, acc, seed, idx, ncli):
         srcdir = os.path.dirname(t.main)
         cwds = {'rootdir': srcdir, 'slash': '/', 'empty': os.path.join(root, 'empty'), 'decoy': decoy, 'ancestor': root}
         core.see(acc, 'tree_depths', t.depth)
+        acc['ctr']['trees_with_a_repeated_include'] += 1 if t.double else 0
         acc['ctr']['files_in_trees'] += len(t.files)
         for compress in (False, True):
             os.chdir(old)
